@@ -579,3 +579,39 @@ func genCleanerCommit(g *Gen, n int) {
 		g.Emit("commit-provenance", lines...)
 	}
 }
+
+// genCleanerForeign: the bucket also holds snapshots of databases whose names merely start with
+// this database's name ("db-eu", "dbx"); they are never the cleaner's business (C15: a name of
+// another database never has the prefix "<database>__").
+func genCleanerForeign(g *Gen, n int) {
+	count := 4
+	if g.Thorough() {
+		count = 40
+	}
+	for s := 0; s < count; s++ {
+		lines := []string{"cleaner.new 10 100 1"}
+		other := []string{cleanerDB + "-eu", cleanerDB + "x", cleanerDB + "_"}[g.R.Intn(3)]
+		ts := int64(5)
+		now := int64(30)
+		for k := 0; k < 4+g.R.Intn(4); k++ {
+			var names []string
+			for j := 0; j < 1+g.R.Intn(3); j++ {
+				ts += int64(1 + g.R.Intn(6))
+				db := cleanerDB
+				if g.R.Intn(2) == 0 {
+					db = other
+				}
+				names = append(names, snapName(db, []string{"a", "b"}[g.R.Intn(2)], ts))
+			}
+			lines = append(lines, putLine(names...))
+			now += int64(5 + g.R.Intn(60))
+			lines = append(lines, fmt.Sprintf("cleaner.run %d 0 -", now))
+			if g.R.Intn(3) == 0 {
+				lines = append(lines, fmt.Sprintf("cleaner.commit %s=%d,%s=%d", hx([]byte("a")), ts, hx([]byte("b")), ts))
+			}
+		}
+		now += 500
+		lines = append(lines, fmt.Sprintf("cleaner.run %d 0 -", now), fmt.Sprintf("cleaner.run %d 0 -", now+200))
+		g.Emit("foreign-database", lines...)
+	}
+}
